@@ -47,6 +47,19 @@ func (c *Ctx) Emit(op string, in interface{}, impl interface{}) {
 	c.Count++
 }
 
+// EmitAs writes one case that belongs to another suite's protocol (used by the closed-loop walks,
+// whose individual reconciles are validated by the one-step models).
+func (c *Ctx) EmitAs(suite, op string, in interface{}, impl interface{}) {
+	line := J{"suite": suite, "op": op, "in": in, "impl": impl}
+	b, err := json.Marshal(line)
+	if err != nil {
+		panic(err)
+	}
+	c.out.Write(b)
+	c.out.WriteByte('\n')
+	c.Count++
+}
+
 type SuiteFunc func(c *Ctx)
 type ReplayFunc func(c *Ctx, op string, in json.RawMessage)
 
